@@ -2,6 +2,8 @@ package props
 
 import (
 	"bytes"
+	"io"
+	"strings"
 	"crypto/sha256"
 	"fmt"
 	"image"
@@ -156,6 +158,11 @@ func runC11Op(op *c11Op) *c11Result {
 	case "dec":
 		img, err := webp.Decode(bytes.NewReader(op.File))
 		r.Digest = digestImage(r, img, err)
+		// the same bytes through a reader without Len() (other read path) must give the same result
+		img2, err2 := webp.Decode(io.MultiReader(bytes.NewReader(op.File)))
+		if d2 := digestImage(&c11Result{}, img2, err2); d2 != r.Digest {
+			r.Digest = "READER-TYPE-DEPENDENT: bytes.Reader -> " + r.Digest + " ; plain io.Reader -> " + d2
+		}
 	case "cfg":
 		cfg, err := webp.DecodeConfig(bytes.NewReader(op.File))
 		ft, err2 := webp.GetFeatures(bytes.NewReader(op.File))
@@ -170,6 +177,26 @@ func runC11Op(op *c11Op) *c11Result {
 			r.Digest = fmt.Sprintf("anim %d %x", len(out), sha256.Sum256(out))
 		}
 	case "animdec":
+		// frames decoded one by one and with DecodeFramesParallel must agree
+		if an, e := animation.DecodeBytes(op.File); e == nil {
+			an2, _ := animation.DecodeBytes(op.File)
+			e1, e2 := an.DecodeFrames(), an2.DecodeFramesParallel()
+			if (e1 == nil) != (e2 == nil) {
+				r.Digest = fmt.Sprintf("PARALLEL-DECODE-DIFFERS: DecodeFrames err=%v DecodeFramesParallel err=%v", e1, e2)
+				break
+			}
+			if e1 == nil {
+				for i := range an.Frames {
+					a, b := an.Frames[i].Image, an2.Frames[i].Image
+					if (a == nil) != (b == nil) || (a != nil && !bytes.Equal(viewOf(a, nil).Pix, viewOf(b, nil).Pix)) {
+						r.Digest = fmt.Sprintf("PARALLEL-DECODE-DIFFERS: frame %d", i)
+					}
+				}
+				if r.Digest != "" {
+					break
+				}
+			}
+		}
 		pb, err := playback(op.File)
 		if err != nil {
 			r.Digest = "err:" + err.Error()
@@ -222,6 +249,9 @@ func checkC11(c *c11Case, o *core.Obs) error {
 	for i := range c.Ops {
 		flushPools()
 		b := runC11Op(&c.Ops[i])
+		if strings.HasPrefix(b.Digest, "READER-TYPE-DEPENDENT") || strings.HasPrefix(b.Digest, "PARALLEL-DECODE-DIFFERS") {
+			return fmt.Errorf("call %d (%s %s): %s", i, c.Ops[i].Kind, opDesc(&c.Ops[i]), clip(b.Digest))
+		}
 		if b.Digest != hist[i].Digest {
 			prev := "none"
 			if i > 0 {
